@@ -167,10 +167,10 @@ CHECKS = {
             "identical in value and consumption; pairwise interleaving with 6 "
             "partner instances; re-pointing after 0..3 draws; all parameter "
             "tuples over a 12-value alphabet vs the documented domains.",
-            "Known findings (28, in known_findings.json): samplers that raise "
-            "for a uniform of exactly 0.0 / an underflowing product / the "
-            "polar-method pair (0.5,0.5); Geometric/NegBinomial p in {0,1}. "
-            "Each is keyed by class + exception + raising source line."),
+            "NaN/inf parameters unspecified; a raising draw is keyed by class "
+            "+ exception + raising source line + kind of triggering stream "
+            "output. The sampler crashes found here were repaired (fix: "
+            "commits), no known findings remain."),
     "C18": ("model_checking",
             "explicit-state BFS over parameter trees under a real DSOLModel "
             "(reference tree = state), exhaustive set-value sequences per "
@@ -205,8 +205,9 @@ CHECKS = {
             "I1-I6 at scheduler-decided quiescence.",
             "Line-level scheduling points in simulator.py; a runnable run "
             "thread is not starved for 1 s; '?' cells accept refusal or "
-            "effect. 9 known-finding signatures (3 race families without a "
-            "small safe repair) in known_findings.json."),
+            "effect. 27 known-finding signatures (5 race families without a "
+            "small safe repair; keyed by scenario, invariant, final states "
+            "and preemption count) in known_findings.json."),
     "C06": ("exploration",
             "exhaustive table of prior simulator histories x stochastic "
             "models x clocks; differential oracle: the replication after the "
